@@ -188,7 +188,7 @@ class World:
 class LiveScenario(Scenario):
     """a scenario whose lines are executed on the implementation while it is built
     (later lines may depend on earlier outputs)"""
-    __slots__ = ("w", "impl_out")
+    __slots__ = ()
 
     def __init__(self, w, name, tags=()):
         Scenario.__init__(self, name, tags)
